@@ -74,19 +74,19 @@ const (
 	BRcpCleanupSkips
 	BRcpSkipWithCleanupErrorf
 	// more per-case behaviours (appended to keep the numbering of the others stable)
-	BCleanupErrorfSkip // registers a cleanup that Errorfs, then skips
-	BErrorfReject      // Errorf, then a draw that is rejected as invalid data (not through Skip)
-	BCleanupSkip       // registers a cleanup that calls Skip
-	BErrorEmpty        // t.Error() with no arguments
-	BErrorfEmpty       // t.Errorf("")
-	BFailNowD          // FailNow at another call stack than BFailNowC: same message, different site
-	BPanicDivA         // integer divide by zero at site A
-	BPanicDivB         // integer divide by zero at site B (same message, different site)
+	BCleanupErrorfSkip      // registers a cleanup that Errorfs, then skips
+	BErrorfReject           // Errorf, then a draw that is rejected as invalid data (not through Skip)
+	BCleanupSkip            // registers a cleanup that calls Skip
+	BErrorEmpty             // t.Error() with no arguments
+	BErrorfEmpty            // t.Errorf("")
+	BFailNowD               // FailNow at another call stack than BFailNowC: same message, different site
+	BPanicDivA              // integer divide by zero at site A
+	BPanicDivB              // integer divide by zero at site B (same message, different site)
 	BCleanupSkipThenFatal   // registers a cleanup that skips, then Fatalf
 	BCleanupSkipThenPanic   // registers a cleanup that skips, then a plain panic
 	BCleanupRejectThenFatal // registers a cleanup whose draw is rejected, then Fatalf
 	BCleanupRejectThenPanic // registers a cleanup whose draw is rejected, then a plain panic
-	BErrorfThenFatalA // Errorf, then Fatalf at site A in the same test case
+	BErrorfThenFatalA       // Errorf, then Fatalf at site A in the same test case
 	BRcpTwoPanickingCleanups
 	BRcpFatalAndSkipCleanups
 	BRcpThreeAbnormalCleanups
